@@ -14,7 +14,9 @@ ERRNO = T('sym', 'errno')
 RAISES = T('sym', 'fails')
 ISDIR = T('call', 'os.path.isdir', T('sym', 'path'))
 ERRNOS = (errno.EEXIST, errno.ENOENT, errno.EINVAL, errno.EACCES,
-          errno.ENOTDIR)
+          errno.ENOTDIR, errno.EISDIR, errno.EPERM, errno.EROFS,
+          errno.ENOSPC, errno.EBUSY, errno.ELOOP, errno.ENAMETOOLONG,
+          errno.ENOTEMPTY, errno.EIO, 0, None)
 
 
 def _failing(names, holder, count=None):
